@@ -1,7 +1,7 @@
 """X01 - specification coverage BEYOND the listed properties (not registered in MANIFEST.json; `./check X01`).
 The specifications keep growing to cover more of numqi's behaviour; parts that belong to none of C01..C20 are decided here, so
 that a defect in them can never be reported against a listed property.
-specs: specs/extra/{MC_Qudit,MC_SymplecticGS,MC_PauliOrbit,MC_SymBasis,MC_SchurWeyl,MC_GroupMisc,MC_ClosedGME,MC_IndexStore}.tla"""
+specs: specs/extra/{MC_Qudit,MC_SymplecticGS,MC_PauliOrbit,MC_SymBasis,MC_SchurWeyl,MC_GroupMisc,MC_ClosedGME,MC_IndexStore,MC_Query}.tla"""
 import itertools, math, random
 import numpy as np
 from .. import tlc, core
@@ -402,12 +402,85 @@ def run_index_store(ctx, quick):
         shutil.rmtree(tmpdir, ignore_errors=True)
 
 
+def run_query(ctx):
+    """MC_Query: the discrete helpers of numqi.query.utils and numqi.utils (bit tables, Hamming maps, block measurement matrix,
+    register sizing, complex<->real block embedding); every state of the model is one call replayed into the code"""
+    import numqi, torch
+    from ..qsim import setof
+    Q = numqi.query.utils
+    r = tlc.run('extra/MC_Query.tla', 'extra/MC_Query.cfg', dump=True, timeout=900)
+    ctx.add_model('MC_Query', r)
+
+    def gmat(A):
+        return np.array([[complex(e[0], e[1]) for e in row] for row in A])
+    for st in tlc.parse_dump(r):
+        i, out = st['inst'], st['out']
+        kind = i['kind']
+        reject = (not isinstance(out, (tuple, list))) and out == -1 and kind != 'hamming'
+        data = {k: (sorted(setof(v)) if k == 'S' else v) for k, v in i.items()}
+        ctx.case(('query', repr(sorted(data.items(), key=lambda kv: kv[0]))))
+        try:
+            try:
+                if kind == 'xbit':
+                    got = [Q.get_xbit(i['m'], i['n'])]
+                elif kind == 'hamming':
+                    got = [Q.get_hamming_weight(i['x'])]
+                elif kind == 'modmap':
+                    got = [Q.get_hamming_modulo_map(i['nb'], i['q'])]
+                elif kind == 'exactmap':
+                    S = sorted(setof(i['S']))
+                    got = [Q.get_exact_map(i['nb'], S), Q.get_exact_map(i['nb'], np.array(S[::-1] + S[:1]))]
+                elif kind == 'measure':
+                    got = [Q.get_measure_matrix(np.array(i['bm']), list(i['part'])), Q.get_measure_matrix(np.array(i['bm'], dtype=np.uint8), np.array(i['part']))]
+                elif kind == 'numqubit':
+                    got = [numqi.utils.hf_num_state_to_num_qubit(i['N'], i['how']), numqi.utils.hf_num_state_to_num_qubit(np.int64(i['N']), kind=i['how'])]
+                else:
+                    A, B = gmat(i['A']), gmat(i['B'])
+                    AB = A @ B
+                    got = []
+                    for arrs in ((A, B, AB), (torch.tensor(A), torch.tensor(B), torch.tensor(AB))):
+                        rr = [numqi.utils.hf_complex_to_real(x) for x in arrs]
+                        got.append(tuple(np.asarray(x) for x in rr))
+                        for x, y in zip(arrs, rr):
+                            back = np.asarray(numqi.utils.hf_real_to_complex(y))
+                            if back.shape != tuple(x.shape) or core.gt(np.abs(back - np.asarray(x)).max(), TOL):
+                                ctx.violation('X01:hf_real_to_complex:left-inverse', 'hf_real_to_complex(hf_complex_to_real(A)) differs from A', data)
+                    # batch: a stack of [A, 2A] must map to the stack of the images
+                    stk = np.stack([A, 2 * A]).reshape(2, 1, *A.shape)
+                    img = numqi.utils.hf_complex_to_real(stk)
+                    w0 = np.array(out[0], dtype=np.float64)
+                    if img.shape != (2, 1) + w0.shape or core.gt(np.abs(img[0, 0] - w0).max(), TOL) or core.gt(np.abs(img[1, 0] - 2 * w0).max(), TOL):
+                        ctx.violation('X01:hf_complex_to_real:batch', 'a batched call does not return the stack of the block embeddings', data)
+            except AssertionError:
+                got = 'reject'
+            if reject:
+                if got != 'reject':
+                    ctx.violation('X01:query-%s:precondition' % kind, 'the documented precondition fails but the call returned a value', data)
+            elif got == 'reject':
+                ctx.violation('X01:query-%s:rejected' % kind, 'a legal call was rejected', data)
+            elif kind == 'c2r':
+                for g in got:
+                    for gg, w in zip(g, out):
+                        w = np.array(w, dtype=np.float64)
+                        if gg.shape != w.shape or np.iscomplexobj(gg) or core.gt(np.abs(gg - w).max(), TOL):
+                            ctx.violation('X01:hf_complex_to_real:value', 'the image differs from the block matrix [[R,-J],[J,R]] of the specification', data)
+            else:
+                w = np.array(out, dtype=np.int64)
+                for g in got:
+                    g = np.asarray(g)
+                    if g.shape != w.shape or not np.array_equal(g.astype(np.int64), w) or (g.dtype.kind == 'f' and core.gt(np.abs(g - w).max(), 0)):
+                        ctx.violation('X01:query-%s:value' % kind, 'the returned table differs from the specification', dict(data, got=g.tolist()[:8] if g.ndim else int(g)))
+            ctx.traces += 1
+        except Exception as ex:
+            ctx.violation('X01:query-%s:exception' % kind, type(ex).__name__ + ': ' + str(ex)[:160], data)
+
+
 def run(ctx):
     quick = ctx.tier == 'quick'
     ctx.rule = ('beyond the listed properties: Weyl-Heisenberg matrices d = 2, 4, 8 (commutation, order, Fourier relation as TLC invariants); symplectic Gram-Schmidt over F2 for every list of '
                 '%d vectors of F2^4 (number of hyperbolic pairs = rank of the Gram matrix / 2, computed by TLC); Pauli exponential on the axis grid; orbits of two-qubit Pauli subsets under the Clifford group; the symmetric / antisymmetric bases of (C^d)^r for d <= 4, r <= 4 and every projection route of numqi.matrix_space built on them; the Schur-Weyl blocks of numqi.group.symext against the hook-length / hook-content table' % (4 if quick else 5))
     ctx.assumptions = ['TLC/SANY correct', 'tolerance 1e-9']
-    ctx.not_covered = ['everything else outside C01..C20 (optimisers, maximum entropy, unique determination, query algorithms, optimal control)']
+    ctx.not_covered = ['everything else outside C01..C20 (optimisers, maximum entropy, unique determination, query-complexity optimisation models, optimal control); covered since round 9: the discrete helpers of numqi.query.utils, register sizing and the complex<->real block embedding of numqi.utils (MC_Query)']
     run_qudit(ctx)
     run_symplectic_gs(ctx, quick)
     run_pauli_exponential(ctx)
@@ -417,6 +490,7 @@ def run(ctx):
     run_groupmisc(ctx, quick)
     run_closed_gme(ctx)
     run_index_store(ctx, quick)
+    run_query(ctx)
     ctx.sample(dict(kind='extra-models', models=[m['model'] for m in ctx.models]))
 
 
